@@ -2,6 +2,7 @@ import Just.Lemmas.Syntax
 import Just.Lemmas.SyntaxWF
 import Just.Lemmas.SyntaxRoundtrip
 import Just.Lemmas.Header
+import Just.Lemmas.Items
 set_option linter.unusedSimpArgs false
 /-
 C10  Formatting preserves meaning and is idempotent.
@@ -80,6 +81,25 @@ the variadic parameter, the prior and the subsequent dependencies with all their
 theorem header_roundtrip (h : Header.Header) (hw : Header.WFHeader h) (fuel : Nat) (hf : Header.HeaderFuel fuel h)
     (rest : List Tk) : Header.parseHeader fuel (Header.printHeader h ++ rest) = some (h, rest) :=
   Header.parseHeader_rt h hw fuel hf rest
+
+/-- **Round trip of a whole recipe**: the header line and the body - every line's text fragments and
+`{{ … }}` interpolations, blank lines inside the body - print (`ColorDisplay for Recipe`) and parse
+(`parse_recipe` with `parse_body`) back to exactly the recipe, for every recipe with a well-formed header,
+well-formed interpolated expressions and no trailing empty line (what `parse_body` returns). -/
+theorem recipe_roundtrip (fuel : Nat) (r : Items.Recipe) (hw : Items.WFRecipe r) (hf : Items.RecipeFuel fuel r)
+    (rest : List Tk) (hrest : ∀ t, rest ≠ Tk.other "Indent" :: t) :
+    Items.parseRecipe fuel (Items.printRecipe r ++ rest) = some (r, rest) :=
+  Items.parseRecipe_rt fuel r hw hf rest hrest
+
+/-- **Round trip of assignments** (`[export] name := expression`). -/
+theorem assignment_roundtrip (fuel : Nat) (a : Items.Assignment) (hw : WF a.value) (hf : 4 * a.value.size + 3 ≤ fuel)
+    (rest : List Tk) : Items.parseAssignment fuel (Items.printAssignment a ++ rest) = some (a, rest) :=
+  Items.parseAssignment_rt fuel a hw hf rest
+
+/-- **Round trip of aliases**, including targets in submodules (`alias a := m::n::r`): every path component is kept. -/
+theorem alias_roundtrip (fuel : Nat) (a : Items.Alias) (hf : a.path.length < fuel) (rest : List Tk) :
+    Items.parseAlias fuel (Items.printAlias a ++ rest) = some (a, rest) :=
+  Items.parseAlias_rt fuel a hf rest
 
 /-- non-vacuity: `@build target $mode='debug' +flags=(a + 'x'): clean (fetch 'src' mode) && (notify target)` -/
 example : Header.WFHeader
